@@ -463,6 +463,23 @@ func (x *Exec) localByName(env *SpecEnv, name string) (SpecVal, bool) {
 			}
 		}
 	}
+	// a local kept in a cell (captured by a closure / address taken): the
+	// variable's value is the current content of the cell, not one of the
+	// loads recorded for it
+	for _, b := range f.fn.Blocks {
+		for _, in := range b.Instrs {
+			if al, ok := in.(*ssa.Alloc); ok && al.Comment == name {
+				if v, bound := f.regs[al]; bound {
+					el := derefType(al.Type())
+					if a, isAddr := v.(AddrV); isAddr {
+						arr := x.heapGet(env.st, a.Arr, SArr(SInt, x.sortOf(el)))
+						return SpecVal{T: Select(arr, a.Base), Ty: el}, true
+					}
+					return x.valToSpec(env.st, v, al.Type()), true
+				}
+			}
+		}
+	}
 	var best ssa.Value
 	instrIndex := func(in ssa.Instruction) int {
 		for k, i2 := range in.Block().Instrs {
@@ -513,21 +530,6 @@ func (x *Exec) localByName(env *SpecEnv, name string) (SpecVal, bool) {
 			return x.valToSpec(env.st, x.constVal(c), c.Type()), true
 		}
 		return x.valToSpec(env.st, f.regs[best], best.Type()), true
-	}
-	// escaping local: Alloc with that comment; value is the cell content
-	for _, b := range f.fn.Blocks {
-		for _, in := range b.Instrs {
-			if al, ok := in.(*ssa.Alloc); ok && al.Comment == name {
-				if v, bound := f.regs[al]; bound {
-					el := derefType(al.Type())
-					if a, isAddr := v.(AddrV); isAddr {
-						arr := x.heapGet(env.st, a.Arr, SArr(SInt, x.sortOf(el)))
-						return SpecVal{T: Select(arr, a.Base), Ty: el}, true
-					}
-					return x.valToSpec(env.st, v, al.Type()), true
-				}
-			}
-		}
 	}
 	return SpecVal{}, false
 }
@@ -806,6 +808,15 @@ func (x *Exec) specQuant(env *SpecEnv, q EQuant) SpecVal {
 		body := x.specBool(cur, wc.Args[len(wc.Args)-1])
 		return SpecVal{T: Forall(vars, body, pats...)}
 	}
+	// forall a, b :: withmtrig(t1, t2, ..., body): one multi-pattern made of all the terms
+	if wc, ok := q.Body.(ECall); ok && wc.Fn == "withmtrig" && len(wc.Args) >= 2 && q.Forall {
+		var pat []Term
+		for _, pe := range wc.Args[:len(wc.Args)-1] {
+			pat = append(pat, x.specTerm(cur, pe))
+		}
+		body := x.specBool(cur, wc.Args[len(wc.Args)-1])
+		return SpecVal{T: Forall(vars, body, pat)}
+	}
 	body := x.specBool(cur, q.Body)
 	if q.Forall {
 		if len(vars) == 1 {
@@ -1003,6 +1014,10 @@ func (x *Exec) specCall(env *SpecEnv, c ECall) SpecVal {
 			return SpecVal{T: Gt(v, x.d.Const("H0!$top", SInt))}
 		}
 		return SpecVal{T: Gt(v, x.top(env.old))}
+	case "backing":
+		// the backing array (an object) of a slice
+		v := x.specTerm(env, c.Args[0])
+		return SpecVal{T: x.slBase(v)}
 	case "known":
 		// a non-nil reference that exists now (top-level object or embedded sub-object)
 		v := x.specTerm(env, c.Args[0])
@@ -1131,6 +1146,11 @@ func (x *Exec) specCall(env *SpecEnv, c ECall) SpecVal {
 	case "closedch":
 		ch := x.specTerm(env, c.Args[0])
 		return SpecVal{T: Select(x.heapGet(env.st, "$closed", SArr(SInt, SBool)), ch)}
+	case "sortperm", "sortinv":
+		// the permutation applied by the most recent sort.Slice[Stable] on
+		// this path (position after -> position before) and its inverse
+		k := x.specIdx(env, c.Args[0])
+		return SpecVal{T: Select(x.heapGet(env.st, "$"+c.Fn, SArr(x.idxSort(), x.idxSort())), k), Ty: types.Typ[types.Int]}
 	case "oncedone":
 		o := x.specTerm(env, c.Args[0])
 		return SpecVal{T: Select(x.heapGet(env.st, "$oncedone", SArr(SInt, SBool)), o)}
@@ -1780,6 +1800,14 @@ func (x *Exec) havocModifies(cfg *Config, env *SpecEnv, c *FuncContract) {
 		}
 		fresh := x.d.Fresh("hv!"+t.arr, t.sort.ElemSort())
 		st.heap[t.arr] = Store(cur, *t.loc, fresh)
+	}
+	// a callee that sorts reports its own permutation witnesses
+	for _, cl := range c.Ensures {
+		if strings.Contains(cl.Text, "sortperm(") || strings.Contains(cl.Text, "sortinv(") {
+			st.heap["$sortperm"] = x.d.Fresh("sortperm", SArr(x.idxSort(), x.idxSort()))
+			st.heap["$sortinv"] = x.d.Fresh("sortinv", SArr(x.idxSort(), x.idxSort()))
+			break
+		}
 	}
 	// callee may allocate
 	top := x.top(st)
